@@ -19,6 +19,7 @@ from engine import hx
 from engine.env import WORLD, VSock
 from harness import bench as B
 from harness import hist as H           # connection tracking (ALL_CONNS)
+from diameter.message.avp import Avp as _Avp
 
 P1, P2, PX = B.PEER_HOSTS[0], B.PEER_HOSTS[1], "stranger.local.realm"
 K = B.constants
@@ -27,11 +28,11 @@ INITS = ["fresh", "in1", "in1_in2", "out1", "in1_pend", "in1_in1", "in1_out2", "
 
 EP_ACTIONS = ["cer1", "cer2", "cerx", "cer1nc", "cea_ok", "cea_rej", "dwr", "dwa", "dpr", "dpa", "req", "req2", "reqT", "reqdup", "req_bad",
               "req_realm", "req_app9", "dpr_req", "half", "ans", "ans_unk", "eof", "rst", "req_h0", "req_e0", "dwr_00",
-              "req_part", "cea_rej_req", "cer1_req", "req_raise", "wr_eagain", "wr_short", "req_lag"]
+              "req_part", "cea_rej_req", "cer1_req", "req_raise", "wr_eagain", "wr_short", "req_lag", "req_2048", "req_eof_lag"]
 GLOBAL = ["accept", "dial1", "dial1_refused", "app_ans", "app_ans_new", "app_ans_again", "app_req0", "app_req1", "tick5", "tick25", "tick31", "node_close_old",
           "handler_raises", "reconn1", "reconn1_out", "both_lag", "dial1_early"]
 FUNCTIONS = ["wire level (uni): Node._handle_connections, PeerConnection.work_read_queue/work_write_queue, Node._receive_message and every receive_*/send_* handler, route_request/route_answer, _check_timers, _reconnect_peers, remove_peer_connection - driven by bytes on virtual sockets, observed as bytes"]
-BOUNDS = {"quick": "wire-level histories (uni): every 2-event history over 83 events from the 2-4 initial states closest to the property, this property's monitor after every event",
+BOUNDS = {"quick": "wire-level histories (uni): every 2-event history over 87 events from the 2-4 initial states closest to the property, this property's monitor after every event",
           "thorough": "wire-level histories (uni): every 2-event history from 9 initial states x {persistent, non-persistent peers}; every 3-event history for 48 seeded (initial state, first event) pairs"}
 OUTSIDE = ["wire-level histories deeper than 3 events beyond the 9 initial states", "more than 2 configured peers / 3 simultaneous connections in the wire-level histories"]
 EVENTS = [a + "@new" for a in EP_ACTIONS] + [a + "@old" for a in EP_ACTIONS] + GLOBAL
@@ -426,7 +427,7 @@ class Uni:
                     self.bad(exp[2], "request (%s) the node answers itself was shown to applications %s" % (rec["kind"], rec["delivered"]))
 
     # ------------------------------------------------------------------ events
-    def push(self, ep, frames, raw=None, extra=b"", chunks=None):
+    def push(self, ep, frames, raw=None, extra=b"", chunks=None, ends=False):
         """one network read carrying the given frames (list of (message, kind)) - preceded by the rest of a half-sent frame"""
         if ep is None or not ep.open:
             return False
@@ -450,6 +451,14 @@ class Uni:
         payload += extra
         for m, kind in frames:
             self.note_in(ep, m, kind)
+        if ends:
+            # the far end closes right behind these frames: whether they are still served is not specified (the connection is
+            # not ready any more by the time the reader runs) - no delivery/answer is demanded, only the safety monitors apply
+            for k in ep.reqs:
+                if k not in before:
+                    ep.reqs[k]["expect"] = None
+            ep.ended = True
+            self.note_loss(ep)
         ep.last_rx = WORLD.now
         if chunks and not data:
             ep.sock.inq.extend(chunks)
@@ -546,6 +555,21 @@ class Uni:
                 ok = self.push(ep, [(m1, "req")], extra=m2.as_bytes()[:30])
                 self._half_msg = m2
                 ep.partial = m2.as_bytes()[:30]
+                return ok
+            if act == "req_2048":
+                # a request followed by one padded so that the read is exactly 2048 bytes long (the size the node asks recv for),
+                # with nothing behind it: a second recv would find the socket empty (EAGAIN)
+                m1, m2 = self.mk_req(ep, "req"), self.mk_req(ep, "req")
+                room = 2048 - len(m1.as_bytes()) - len(m2.as_bytes()) - 8
+                m2.append_avp(_Avp(0xf0000055, 0, b"\x00" * room))
+                m2 = B.Message.from_bytes(m2.as_bytes())
+                assert len(m1.as_bytes()) + len(m2.as_bytes()) == 2048
+                return self.push(ep, [(m1, "req"), (m2, "req")])
+            if act == "req_eof_lag":
+                # a request and the end of the connection, both seen by the I/O thread before the reader thread gets to run:
+                # the request is dispatched on a connection that has already been removed
+                m1 = self.mk_req(ep, "req")
+                ok = self.push(ep, [(m1, "req")], chunks=[m1.as_bytes(), b""], ends=True)
                 return ok
             if act == "req_lag":
                 # two requests arriving as three network reads (cuts inside the second header and inside its body) which the
